@@ -5,6 +5,7 @@ import functools
 import itertools
 
 from . import sigs, oracle
+from . import core
 from .sigs import PO, PK, VA, KO, VK
 from .sigutil import bparams, show, show_params, sources_view
 
@@ -15,6 +16,7 @@ def V(ctx, mech, what, w, rp):
     ctx.violation('C19', 'PartialBoundary', mech, what, w, rp)
 
 
+@core.guarded(None)
 def check_partial(ctx, fparams, npos, kws, nested=None):
     """One binding: p = partial(f, *[0]*npos, **{k: 5})  (optionally nested:
     partial(partial(f, *a1, **k1), *a2, **k2))."""
@@ -134,6 +136,7 @@ def outer(func, %(outer)s):
 '''
 
 
+@core.guarded(None)
 def check_forwarding_partial(ctx, oparams, cparams, by_keyword):
     """partial(outer, callee) resolves the callee (bound positional);
     partial(outer, func=callee) does not."""
